@@ -23,6 +23,8 @@ def run(ctx):
             r0 = ctx.model_check("trie", "MC_MTA", "MC_MTA_cov.cfg", coverage=True, timeout=600)
             ctx.check_coverage(r0, ["Add", "Flush", "Recover", "Witness", "CheckAll", "AddMany"])
             ctx.model_check("trie", "MC_MTA", "MC_MTA.cfg", constants={"MaxLen": ctx.pick(24, 40)}, timeout=ctx.pick(600, 3000))
+            # AddData and AddHash items mixed in every order (the kind sequence multiplies the states: shorter)
+            ctx.model_check("trie", "MC_MTA", "MC_MTA_mixed.cfg", constants={"MaxLen": ctx.pick(7, 9)}, timeout=ctx.pick(600, 3000))
             ctx.exhaustive = True
         # table: every length 1..tmax, every item index, before and after Flush+Recover
         tab = ctx.behaviours("trie", "Gen_MTA", "Gen_MTA_table.cfg", workers=1, timeout=1800,
@@ -53,4 +55,4 @@ def run(ctx):
              "witness/all-witnesses, lengths up to 300); distinct by length resp. call sequence; non-trivial if it "
              "contains a recover or a witness check" % (tmax, wl),
         assumptions=["MapDB bucket", "item data is a function of the item index (re-added items after a Recover are the same)",
-                     "items are added with AddData", "hashes are collision free (symbolic in the spec)"])
+                     "items are added with AddData or AddHash (table: every third item by hash; walks: TLC-chosen mix)", "hashes are collision free (symbolic in the spec)"])
